@@ -404,6 +404,16 @@ def check_tap(res: CaseResult, case: Dict, hist: List, stages: List[int], ep: in
         ok = False
         if b == FAILED:
             ok = True
+            # repeat_kill_chain_stages (TAP notebooks: "Indicates if the kill_chain stage should reset upon failure or retry";
+            # _agent_trial_handler / _tap_return_handler log "Retrying from stage <name>" and set FAILED only "if the relevant
+            # setting is set"): with the flag true neither a failed probability trial nor a failed action fails the chain,
+            # the agent stays on the stage and tries again at its next slot (with probability 0: for ever).
+            if s["repeat_kill_chain_stages"] and a != SUCCEEDED:
+                trial = " (an idle step on a stage with probability of success < 1: a failed trial)" \
+                    if (not non_idle and s["probs"].get(nm(a), 1) < 1) else ""
+                res.violate(f"failed-despite-stage-retry:{persona}:{nm(a)}",
+                            f"{where}: stage moved {nm(a)} -> FAILED at step {t}{trial} although repeat_kill_chain_stages is "
+                            f"true (retry the stage, do not fail the chain); action of that step: {h.action if h else None}")
         elif a == NOT_STARTED:
             ok = b == 1
         elif 1 <= a < last:
@@ -429,6 +439,20 @@ def check_tap(res: CaseResult, case: Dict, hist: List, stages: List[int], ep: in
             res.violate(f"{sig}:{persona}", f"{where}: stage moved {nm(a)} -> {nm(b)} at step {t}")
         if not repeat and concluded_at is None and b in (SUCCEEDED, FAILED):
             concluded_at = t
+    # repeat_kill_chain_stages false: the first execution slot on a stage whose probability of success is 0 fails the chain
+    # (then repeat_kill_chain decides between stopping and restarting - checked by the transition rules above). The slot comes at
+    # most frequency + variance steps after the stage was entered, so the stage cannot be sampled more often than that in a row.
+    if not s["repeat_kill_chain_stages"]:
+        run_start = 0
+        for i in range(1, len(stages) + 1):
+            if i == len(stages) or stages[i] != stages[run_start]:
+                a0 = stages[run_start]
+                if a0 in prob0 and i - run_start > f + v and not (persona == "tap-001" and prob0[a0] == "ACTIVATE"):
+                    res.violate(f"prob0-stage-retried-without-stage-retry:{persona}:{prob0[a0]}",
+                                f"{where}: stage {nm(a0)} (probability of success 0) was held for {i - run_start} steps from step "
+                                f"{run_start}; with repeat_kill_chain_stages false the first slot on it (at most {f + v} steps "
+                                f"after entering) has to fail the chain")
+                run_start = i
     # timing: lower bounds only
     if events and events[0] < start - v:
         res.violate(f"acts-before-start:{persona}", f"{where}: first action/stage change at step {events[0]} < {start - v}")
@@ -504,6 +528,8 @@ def check_tap(res: CaseResult, case: Dict, hist: List, stages: List[int], ep: in
                         f"{where}: the last action of the chain, step {t} {h.action} {h.parameters}, was answered "
                         f"{h.response.status!r} ({str(h.response.data)[:80]}); {len(hist) - 1 - t} steps later the stage is "
                         f"still SUCCEEDED and the action was never retried")
+    if FAILED in stages:
+        res.label("episodes-with-FAILED-chain")
     if any(h.response.status == "unreachable" for h in hist):
         res.label("episodes-with-unreachable-red-response")
     if any(h.response.status == "failure" for h in hist if h.action != "do-nothing"):
@@ -627,6 +653,10 @@ def run_case(case: Dict) -> CaseResult:
             res.label("tap-has-prob0-stage")
         if case["settings"]["repeat_kill_chain"]:
             res.label("tap-repeat")
+        st_ = case["settings"]
+        res.label(f"flags:repeat_kill_chain={int(st_['repeat_kill_chain'])},repeat_kill_chain_stages={int(st_['repeat_kill_chain_stages'])}")
+        if any(0 < p < 1 for p in st_["probs"].values()):
+            res.label("tap-has-fractional-probability")
     else:
         for a in case["agents"]:
             res.label(f"kind:{a['kind']}")
@@ -762,7 +792,7 @@ def tap_case(draw, persona: str, max_steps: int = 60, slow_nets: bool = False, e
         start = v + 1
         used.append(X_SLOT0)
     # at most one stage with probability 0 (it ends the chain there), the others 1 or 1/2
-    probs = {name: draw(st.sampled_from([1, 1, 1, 0.5])) for name in P["prob_stages"]}
+    probs = {name: draw(st.sampled_from([1, 1, 1, 0.5, 0.3, 0.7])) for name in P["prob_stages"]}
     if draw(st.integers(0, 2)) == 0:
         probs[draw(st.sampled_from(sorted(P["prob_stages"])))] = 0
     settings: Dict[str, Any] = {
